@@ -268,7 +268,7 @@ public:
 	void wait()
 	{
 		ASL_VERIF_HOOK(24, this, 0);
-		sem_wait(&_sem);
+		while (sem_wait(&_sem) != 0 && errno == EINTR) {} // a signal handler must not make wait() return without a post
 		ASL_VERIF_HOOK(25, this, 0);
 	}
 	bool wait(double timeout)
@@ -277,7 +277,9 @@ public:
 		struct timespec to;
 		to.tv_sec = (time_t)floor(t);
 		to.tv_nsec = (long)((t - floor(t))*1e9);
-		return sem_timedwait(&_sem, &to) == 0;
+		int r;
+		while ((r = sem_timedwait(&_sem, &to)) != 0 && errno == EINTR) {} // interrupted: keep waiting until the same deadline
+		return r == 0;
 	}
 	bool trywait()
 	{
